@@ -173,10 +173,11 @@ fn exactly_one(guards: &[Option<&E>]) -> Result<(), String> {
 }
 
 /// Well-formedness of a lifted block. Returns (finding class, description) pairs.
-pub fn validate(btr: &Btr, arch: &str) -> Vec<(String, String)> {
+pub fn validate(btr: &Btr, arch: &str) -> Vec<(String, String, Option<u64>)> {
     let w = word_bits(arch);
-    let mut bad: Vec<(String, String)> = Vec::new();
+    let mut out: Vec<(String, String, Option<u64>)> = Vec::new();
     for (addr, g) in btr.instructions() {
+        let mut bad: Vec<(String, String)> = Vec::new();
         let ctx = |s: String| format!("instruction at {:#x}: {}", addr, s);
         let blocks: BTreeSet<usize> = g.blocks().iter().map(|b| b.index()).collect();
         match (g.entry(), g.exit()) {
@@ -266,7 +267,9 @@ pub fn validate(btr: &Btr, arch: &str) -> Vec<(String, String)> {
                 }
             }
         }
+        out.extend(bad.into_iter().map(|(c, w)| (c, w, Some(*addr))));
     }
+    let mut bad: Vec<(String, String)> = Vec::new();
     let succ: Vec<Option<&E>> = btr.successors().iter().map(|(_, c)| c.as_ref()).collect();
     let mut ok = true;
     for c in succ.iter().flatten() {
@@ -287,7 +290,9 @@ pub fn validate(btr: &Btr, arch: &str) -> Vec<(String, String)> {
             bad.push(("successors-not-exclusive-exhaustive".into(), s));
         }
     }
-    bad
+    let last = btr.instructions().last().map(|(a, _)| *a);
+    out.extend(bad.into_iter().map(|(c, w)| (c, w, last)));
+    out
 }
 
 /// equality of two lifting results (determinism)
